@@ -101,11 +101,11 @@ def parse_spec(path):
                     cur['rename'] = rest
                 elif word == 'ret':
                     cur['ret'] = rest
-                elif word == 'sub':
+                elif word in ('sub', 'sub?'):
                     mm = re.match(r'/(.*)/\s*=>\s*(.*)$', rest)
                     if not mm:
                         raise SpecError('%s:%d: bad sub' % (path, ln))
-                    cur['subs'].append((mm.group(1), mm.group(2)))
+                    cur['subs'].append((mm.group(1), mm.group(2), word == 'sub?'))
                 elif word == 'only':
                     cur['only'] = rest
                 elif word == 'keepconst':
@@ -553,9 +553,14 @@ class Weaver:
                     raise SpecError('%s: cfg `%s` on %s is not in the evaluated-true set' % (it['file'], cond, it['name']))
         text = r['text']
         log = []
-        for (pat, rep) in it['subs']:
+        for sub in it['subs']:
+            pat, rep = sub[0], sub[1]
+            optional = len(sub) > 2 and sub[2]
             t2, n = re.subn(pat, rep, text)
             if n == 0:
+                if optional:
+                    log.append('optional sub /%s/ did not match (code changed); woven without it' % pat)
+                    continue
                 raise ExtractError('%s: sub /%s/ matched nothing in %s (lost anchor)' % (it['file'], pat, it['name']))
             log.append('sub /%s/ => %s (%d)' % (pat, rep, n))
             text = t2
